@@ -111,27 +111,29 @@ PROPS = {
                         "unlock request ids are fresh (locking contract counter on the execution layer; shown necessary by an example: the module does not check ids)"],
     },
     "C03": {
-        "module": ["GoatProofs.C03", "GoatProofs.C03H", "GoatProofs.C03T"],
+        "module": ["GoatProofs.C03", "GoatProofs.C03H", "GoatProofs.C03T", "GoatProofs.C03U"],
         "theorems": ["Goat.C03H.deposited_nodup_invariant", "Goat.C03H.deposited_monotone", "Goat.C03H.deposited_prefix", "Goat.C03H.credited_rejected_forever", "Goat.C03H.credited_batch_rejected", "Goat.C03H.credited_at_most_once", "Goat.C03H.credited_at_most_once_general", "Goat.C03H.credited_recorded", "Goat.C03H.credited_exactly", "Goat.C03H.credited_only_if_verified", "Goat.C03H.credited_only_if_accepted", "Goat.C03H.newDeposits_trace", "Goat.C03H.verifyDeposit_credited_err",
                      "Goat.C03.C03_accept_implies", "Goat.C03.C03_value_exact", "Goat.C03.C03_coinbase_only_at_zero",
                      "Goat.C03.hasDeposited_iff", "Goat.C03.newDeposits_go_spec", "Goat.C03.C03_deposit_once",
                      "Goat.C03T.readVarInt_encode", "Goat.C03T.readVarInt_canonical", "Goat.C03T.readVarInt_shorter", "Goat.C03T.readScript_encode", "Goat.C03T.readScript_canonical",
                      "Goat.C03T.readOuts_encode", "Goat.C03T.readOuts_canonical", "Goat.C03T.readIns_encode", "Goat.C03T.readIns_canonical",
-                     "Goat.C03T.parse_serialize", "Goat.C03T.parse_canonical", "Goat.C03T.parse_outs_bounded"],
+                     "Goat.C03T.parse_serialize", "Goat.C03T.parse_canonical", "Goat.C03T.parse_outs_bounded",
+                     "Goat.C03U.serialize_injective", "Goat.C03U.parse_agree", "Goat.C03U.parse_unique", "Goat.C03U.deposit_tx_canonical"],
         "streams": [{"name": "bitcoin", "quick": 2500, "thorough": 30000, "seeds": 16}, {"name": "merkle", "quick": 3000, "thorough": 60000, "seeds": 8}],
         "assumptions": ["double SHA-256 collision resistance enters only in the conclusion of the coinbase corollary (another transaction presented at a position exhibits a collision among the strings hashed by that very run, C04.RunCollision)",
                         "btcd DeserializeNoWitness is re-implemented in the model (BtcTx.parseNoWitness) and tied differentially",
                         "hash160 / taproot tweak values are stated by the harness (computed with btcd / x/crypto directly, independently of x/bitcoin/types)"],
     },
     "C05": {
-        "module": ["GoatProofs.C05", "GoatProofs.C05H", "GoatProofs.C03T"],
+        "module": ["GoatProofs.C05", "GoatProofs.C05H", "GoatProofs.C03T", "GoatProofs.C03U"],
         "theorems": ["Goat.C05.terminal_absorbing", "Goat.C05.Respects.trans", "Goat.C05.respects_insert", "Goat.C05.checkOutput_terms",
                      "Goat.C05.process_go_spec", "Goat.C05.process_terms", "Goat.C05.paid_terms", "Goat.C05.approve_spec",
                      "Goat.C05H.replace_terms", "Goat.C05H.process_step", "Goat.C05H.replace_step", "Goat.C05H.finalize_step", "Goat.C05H.approve_step",
                      "Goat.C05H.bridge_step", "Goat.C05H.bridge_effects", "Goat.C05H.newDeposits_step", "Goat.C05H.newBlockHashes_step", "Goat.C05H.newPubkey_step",
                      "Goat.C05H.newConsolidation_step", "Goat.C05H.dequeue_spec", "Goat.C05H.dequeue_conserves", "Goat.C05H.history_inv", "Goat.C05H.history_respects",
                      "Goat.C05H.history_edges", "Goat.C05H.history_terminal", "Goat.C05H.C05_history", "Goat.C05H.reused_id_paid_and_refund", "Goat.C05H.duplicate_ids_two_refunds",
-                     "Goat.C03T.parse_serialize", "Goat.C03T.parse_canonical"],
+                     "Goat.C03T.parse_serialize", "Goat.C03T.parse_canonical", "Goat.C03U.serialize_injective", "Goat.C03U.parse_unique",
+                     "Goat.C03U.process_tx_canonical", "Goat.C03U.replace_tx_canonical", "Goat.C03U.consolidation_tx_canonical"],
         "streams": [{"name": "bitcoin", "quick": 2500, "thorough": 30000, "seeds": 16}],
         "assumptions": ["withdrawal ids from the execution layer are fresh (bridge contract counter); id reuse is exercised by the generator but excluded from the monitor",
                         "address decoding is a parameter of the model (tied in C17); fee-rate comparison modelled in exact integers (DESIGN section 7)"],
